@@ -55,6 +55,7 @@ type Directives struct {
 	Decreases string // lemma: termination measure for self-recursive (inductive) use
 	MonotoneFalse map[string]bool // boolean locals that may only be lowered
 	MonotoneMap   map[string]bool // boolean-valued map locals whose true entries stay true
+	InsertOnlyMap map[string]bool // map expressions (source text) into which only absent keys are stored
 	FrameLocal    []string        // array locals (and slices of them) that never escape: dynamic calls cannot touch them
 	Sites     []CallSiteDir // assertions checked immediately before a statement with the given source text
 	CallSites []CallSiteDir // assertions checked in the caller's scope immediately before a named call
@@ -180,6 +181,13 @@ func parseDirectives(cg *ast.CommentGroup) *Directives {
 			}
 			for _, x := range f[1:] {
 				d.MonotoneFalse[x] = true
+			}
+		case "insert-only-map":
+			if d.InsertOnlyMap == nil {
+				d.InsertOnlyMap = map[string]bool{}
+			}
+			for _, x := range f[1:] {
+				d.InsertOnlyMap[x] = true
 			}
 		case "monotone-map":
 			if d.MonotoneMap == nil {
